@@ -18,8 +18,11 @@ def allowed : Mode → Workflow → Bool
 /-- every pipeline run (of a workflow the mode uses) publishes the completion marker -/
 def HasMarker : Prop := ∀ l, allowed cfg.mode l.wf = true → (findKind .marker (cfg.pubs l)).isSome = true
 
-/-- ... and publishes it last, once.  This is true of the `retrospective` and `next_plate` workflows
-    (`EXTRACT_SCREEN_METADATA` consumes the advanced screen) and NOT of `prospective/main.nf`. -/
+/-- ... and publishes it last, once.  `pubs` is the pipeline run UP TO the marker: this is true of the `retrospective`
+    and `next_plate` workflows (`EXTRACT_SCREEN_METADATA` consumes the advanced screen, downstream of every file a glob
+    of the script matches) and NOT of `prospective/main.nf`.  Outputs of `EVALUATE_MODEL` / `ANALYZE_MODEL_EVALUATION`
+    (not upstream of the marker, matched by no glob of the script) may be published after it and are not modelled;
+    `harness/c19.py` validates that omission (`late` outputs). -/
 def MarkerLast : Prop :=
   ∀ l, allowed cfg.mode l.wf = true → ∃ xs m, cfg.pubs l = xs ++ [⟨.marker, m⟩] ∧ ∀ f ∈ xs, f.kind ≠ .marker
 
